@@ -503,3 +503,76 @@ Fixpoint magic_hit_aux (P : params) (seen : Z) (chunks : list bytes) : bool :=
   end.
 Definition magic_hit (P : params) (chunks : list bytes) : bool :=
   p_short P && (0 <? p_count P) && magic_hit_aux P 0 chunks.
+
+(* ------------------------------------------------------------------ *)
+(** * A header writer (used to state the whole-file theorems) *)
+
+From Coq Require Import String Ascii.
+
+(* ASCII text as bytes *)
+Definition asc (s : string) : bytes := map (fun a => Z.of_N (N_of_ascii a)) (list_ascii_of_string s).
+
+(* "%7d" % n *)
+Definition size_line (hdrsize : Z) : bytes :=
+  let d := dec hdrsize in zrepeat 32 (7 - len d) ++ d.
+
+Definition fieldspec := (bytes * bytes * list bytes)%type.      (* key, format tag, value tokens *)
+
+Definition header_lines (hdrsize : Z) (fields : list fieldspec) : list bytes :=
+  [nist_magic; size_line hdrsize]
+    ++ map (fun f : fieldspec => let '(k, fmt, v) := f in field_line k fmt v) fields
+    ++ [end_marker].
+
+Definition header_text (hdrsize : Z) (fields : list fieldspec) : bytes :=
+  render_lines (header_lines hdrsize fields).
+
+(* what the field loop makes of a field, at the level of tokens *)
+Definition field_sem (v : hvars) (f : fieldspec) : sres :=
+  let '(k, fmt, vals) := f in
+  if bytes_eqb fmt int_fmt
+  then match py_int (join_sp vals) with
+       | Some z => assign k (VInt z) v
+       | None => SErr
+       end
+  else assign k (VStr (join_sp vals)) v.
+
+Fixpoint fields_sem (fields : list fieldspec) (v : hvars) : fres :=
+  match fields with
+  | [] => FEnd v
+  | f :: r =>
+      match field_sem v f with
+      | SOk v' => fields_sem r v'
+      | SErr => FErr
+      | SUnmodelled => FUnmodelled
+      end
+  end.
+
+(* a token of a header line: non-empty, ASCII, no white space *)
+Definition good_token (t : bytes) : Prop :=
+  t <> [] /\ Forall (fun c => 0 <= c < 128 /\ is_space_s c = false) t.
+Definition good_field (f : fieldspec) : Prop :=
+  let '(k, fmt, vals) := f in good_token k /\ good_token fmt /\ Forall good_token vals.
+
+(* the six standard fields; [order] may be absent (legal for the 8-bit laws) *)
+Definition coding_name (c : coding) : bytes :=
+  match c with Pcm => asc "pcm" | Ulaw => asc "ulaw" | Alaw => asc "alaw" end.
+
+Definition std_fields (c : coding) (size : Z) (order : option bytes) (chans count rate : Z) : list fieldspec :=
+  [ (asc "channel_count", asc "-i", [dec chans]);
+    (asc "sample_count", asc "-i", [dec count]);
+    (asc "sample_rate", asc "-i", [dec rate]);
+    (asc "sample_n_bytes", asc "-i", [dec size]) ]
+  ++ match order with
+     | Some o => [ (asc "sample_byte_format", asc "-s" ++ dec (len o), [o]) ]
+     | None => []
+     end
+  ++ [ (asc "sample_coding", asc "-s" ++ dec (len (coding_name c)), [coding_name c]) ].
+
+(* a field the reader ignores: unknown key, and a parsable value if tagged -i *)
+Definition inert_field (f : fieldspec) : Prop :=
+  let '(k, fmt, vals) := f in
+  assoc k hdr_keys = None /\ (bytes_eqb fmt int_fmt = true -> py_int (join_sp vals) <> None).
+
+(* a complete file: header text, filler up to the declared size, data section *)
+Definition sphere_file (hdrsize : Z) (fields : list fieldspec) (filler data : bytes) : bytes :=
+  header_text hdrsize fields ++ filler ++ data.
